@@ -218,7 +218,11 @@ class LowerToIRVisitor(Visitor.DefaultVisitor):
             self.v_Visit(s, ctx)
 
     def v_AffixExpression(self, expr, ctx):
-        constOne = ctx.Function.CreateConstant(ctx.AdaptType(expr.GetType()), 1)
+        constOneType = ctx.AdaptType(expr.GetType())
+        constOne = ctx.Function.CreateConstant(
+            constOneType,
+            1.0 if isinstance(constOneType, LinearIR.FloatType) else 1,
+        )
         initialValue = self.v_Visit(expr.GetExpression(), ctx)
         assert isinstance(initialValue, LinearIR.Value)
 
